@@ -469,6 +469,9 @@ theorem all_imp {α : Type} (l : List α) (p q : α → Bool) (h : ∀ a, p a = 
 theorem cfg_of_ordersOK (o : Orders) (C : Nat) (h : OrdersOK o) :
     (cfgOf o C).pAcq = true ∧ (cfgOf o C).qAcq = true ∧ (cfgOf o C).pRel = true ∧ (cfgOf o C).qRel = true := by
   unfold OrdersOK ordersOK at h
+  rw [Bool.and_eq_true] at h
+  replace h := h.1
+  unfold countersOK at h
   rw [List.all_eq_true] at h
   refine ⟨?_, ?_, ?_, ?_⟩ <;> simp only [cfgOf, allOf] <;> rw [List.all_eq_true] <;> intro cls hcls <;>
     have hc := h cls hcls <;> simp only [Bool.and_eq_true] at hc <;> obtain ⟨⟨⟨hpm, hcm⟩, _⟩, _⟩ := hc
@@ -496,5 +499,43 @@ theorem cfg_of_ordersOK (o : Orders) (C : Nat) (h : OrdersOK o) :
     refine all_imp _ _ _ ?_ hm.2
     intro a ha
     by_cases e1 : a.2.1 == "load" <;> by_cases e2 : a.1 == "_tail" <;> by_cases e3 : a.2.1 == "store" <;> simp_all
+
+end Iora.Spsc
+
+namespace Iora.Spsc
+
+/-- **a `tryPush` that returns `false` after a fresh read of `_tail`**: the producer, idle with `push x` next, loads
+`_tail` (reading its latest value) and completes the call; if the call returns 0 the ring held `C` items at the load -/
+theorem push_returns_zero_fresh (c : Cfg) (s : S) (x : Val) (rest : List POp) (h : Inv c s)
+    (hpc : s.pPc = .idle) (ht : s.pTodo = .push x :: rest)
+    (hret : (step c (step c s (.pLoad s.tail)) .pStore).pRets = s.pRets ++ [0]) : (inflight s).length = c.C := by
+  have hps := h.ps
+  have hF := (fifo_of_inv c s h).2
+  have h1 : step c s (.pLoad s.tail) =
+      { s with pPc := .writing s.tail ((POp.push x).count c.C s.head s.tail) 0, pSeen := s.tail,
+               pKq := if c.pAcq && c.qRel then max s.pKq s.tail else s.pKq } := by
+    simp [step, hpc, ht, hps]
+  rw [h1] at hret
+  by_cases h0 : (POp.push x).count c.C s.head s.tail = 0
+  · exact push_refusal_genuine c s x h h0
+  · exfalso
+    have hne : ¬ (0 = (POp.push x).count c.C s.head s.tail) := fun e => h0 e.symm
+    simp [step, ht, hne] at hret
+
+/-- **a `tryPop` that returns `false` after a fresh read of `_head`** saw an empty ring -/
+theorem pop_returns_empty_fresh (c : Cfg) (s : S) (rest : List QOp) (h : Inv c s)
+    (hpc : s.qPc = .idle) (ht : s.qTodo = .pop :: rest)
+    (hret : (step c (step c s (.qLoad s.head)) .qStore).qRets = s.qRets ++ [[]]) : inflight s = [] := by
+  have hqs := h.qs
+  have h1 : step c s (.qLoad s.head) =
+      { s with qPc := .reading s.head (QOp.pop.count s.tail s.head) [], qSeen := s.head,
+               qKp := if c.qAcq && c.pRel then max s.qKp s.head else s.qKp } := by
+    simp [step, hpc, ht, hqs]
+  rw [h1] at hret
+  by_cases h0 : QOp.pop.count s.tail s.head = 0
+  · exact pop_refusal_genuine c s h h0
+  · exfalso
+    have hne : ¬ (0 = QOp.pop.count s.tail s.head) := fun e => h0 e.symm
+    simp [step, ht, hne] at hret
 
 end Iora.Spsc
